@@ -6150,6 +6150,12 @@ class LazyListContainer(list):
     def __eq__(self, other):
         return len(self) == len(other) and all(self[i] == other[i] for i in range(self._count))
 
+    def __ne__(self, other):
+        return not self == other
+
+    def __contains__(self, item):
+        return any(self[i] == item for i in range(self._count))
+
     def __repr__(self):
         return "<LazyListContainer: %s of %s items cached>" % (len(self._values), self._count, )
 
